@@ -153,6 +153,7 @@ fn run_case_inner(case: &Case) -> CaseResult {
         .label_if(deep, "chain>100")
         .label_if(st.live_orphan_states > 0, "live-orphan-state")
         .label_if(f.truncate_refused > 0, "truncate-refused")
+        .label_if(f.expiry_probes > 0, "orphan-expiry-boundary-probed")
         .label_if(case.world.nu6_3_offset.is_some(), "ironwood-world")
         .count("summaries-compared", st.summaries as u64)
         .count("states-without-summary", st.no_summary as u64)
@@ -180,6 +181,7 @@ fn main() {
     ctx.require_label_fraction("histories", "out-of-order", 0.25);
     ctx.require_label_fraction("histories", "rewind-removes-wallet-tx", 0.10);
     ctx.require_label_fraction("histories", "spend-before-receipt", 0.05);
+    ctx.require_label_fraction("histories", "orphan-expiry-boundary-probed", 0.04);
     ctx.run_prop_with("long-chains", || arb_case(14, 100), tier.pick(64, 3_000), 60, run_case);
     ctx.require_label_fraction("long-chains", "chain>100", 0.9);
     ctx.require_label_fraction("long-chains", "batch>102", 0.2);
